@@ -284,18 +284,28 @@ def label_pool(rng):
     return iter(pool)
 
 
+def next_label(rng, labels, used, order, p_reuse):
+    """a fresh label, or (p_reuse) one that so far only marks cuts of OTHER bond orders: the annotated order is part of a
+    descriptor, so '[$a]' and '=[$a]' in one molecule are two unambiguous pairs"""
+    cand = sorted(l for l, os_ in used.items() if order not in os_)
+    lab = rng.choice(cand) if (cand and rng.random() < p_reuse) else next(labels)
+    used.setdefault(lab, set()).add(order)
+    return lab
+
+
 def make_cuts(rng, g, part, kinds=('$', '><'), labels=None):
     """-> desc: node -> [(kind, label, order)], cutcount: {frozenset(parts): n}, cuts list"""
     labels = labels or label_pool(rng)
     desc, cutcount, cuts = {}, {}, []
+    used, p_reuse = {}, rng.choice([0.0, 0.0, 0.6])
     for a, b, d in g.edges(data=True):
         if part[a] != part[b]:
-            lab = next(labels)
             kind = rng.choice(kinds)
             o = d['order']
             oo = 1 if (o == 1.5 or d.get('lower')) else int(o)
             if o == 1.5 and rng.random() < 0.25:
                 oo = 1.5          # the cut aromatic bond written with the aromatic symbol: [$x]:c...
+            lab = next_label(rng, labels, used, oo, p_reuse)
             if kind == '$':
                 ka = kb = '$'
             else:
@@ -374,7 +384,23 @@ def render_fragment(rng, g, nodes, desc, start=None, opts=None):
                 tree.add(frozenset((n, x)))
                 kids[n].append(x)
                 dfs(x)
-    dfs(start)
+    if 'non_dfs_tree' in opts and rng.random() < opts['non_dfs_tree']:
+        # any spanning tree, not only depth-first ones: ring digits may then straddle branches (C(C1)CC1), a spelling
+        # the reader accepts like any other and that a depth-first walk never produces
+        order_ = [start]
+        kids[start] = []
+        while True:
+            cand = [(n, x) for n in order_ for x in sub[n] if x not in seen]
+            if not cand:
+                break
+            n, x = rng.choice(cand)
+            seen.add(x)
+            order_.append(x)
+            tree.add(frozenset((n, x)))
+            kids[n].append(x)
+            kids[x] = []
+    else:
+        dfs(start)
     pre = []
 
     def preorder(n):
